@@ -55,6 +55,7 @@ InitDs(c) == [task |-> 1, prod |-> [i \in 1..M(c) |-> 0], dlv |-> [i \in 1..M(c)
               recent |-> [i \in 1..M(c) |-> NoSampleYet],
               last |-> -1,      \* the previous report of the current task (-1: none yet)
               maxk |-> 0,       \* progress (in 1/n) of the most advanced sample of the current task the driver has received
+              grew |-> FALSE,   \* a client delivered its FIRST sample of the current task since the previous report
               rep |-> [task |-> 0, v |-> 0, fin |-> FALSE, tog |-> FALSE]]
 
 Running(c, s) == s.task <= Len(c.nc)
@@ -63,16 +64,17 @@ InTask(c, s, i) == i <= c.nc[s.task]
 DeliverStep(c, s, cs) ==     \* cs: set of client indices whose new samples arrive in one UpdateSamples message
     [s EXCEPT !.dlv = [i \in 1..M(c) |-> IF i \in cs THEN s.prod[i] ELSE s.dlv[i]],
               !.recent = [i \in 1..M(c) |-> IF i \in cs THEN [t |-> s.task, k |-> s.prod[i]] ELSE s.recent[i]],
-              !.maxk = LET ks == {s.prod[i] : i \in cs} \cup {s.maxk} IN CHOOSE x \in ks : \A y \in ks : x >= y]
+              !.maxk = LET ks == {s.prod[i] : i \in cs} \cup {s.maxk} IN CHOOSE x \in ks : \A y \in ks : x >= y,
+              !.grew = s.grew \/ \E i \in cs : s.dlv[i] = 0]
 
 ReportStep(c, s) ==
     LET v == ReportValue(c, s.recent)
-    IN [s EXCEPT !.last = v, !.rep = [task |-> s.task, v |-> v, fin |-> FALSE, tog |-> ~s.rep.tog]]
+    IN [s EXCEPT !.last = v, !.grew = FALSE, !.rep = [task |-> s.task, v |-> v, fin |-> FALSE, tog |-> ~s.rep.tog]]
 
 JoinStep(c, s) ==            \* the last worker has reached the join point
     [s EXCEPT !.task = @ + 1, !.prod = [i \in 1..M(c) |-> 0], !.dlv = [i \in 1..M(c) |-> 0],
               !.recent = IF ClearAtJoinPoint THEN [i \in 1..M(c) |-> NoSampleYet] ELSE @,
-              !.last = -1, !.maxk = 0,
+              !.last = -1, !.maxk = 0, !.grew = FALSE,
               !.rep = [task |-> s.task, v |-> 100, fin |-> TRUE, tog |-> ~s.rep.tog]]
 
 PInit == pcfg \in PConfigs /\ ds = InitDs(pcfg) /\ pact = [name |-> "Init"]
@@ -100,14 +102,21 @@ PSpec == PInit /\ [][PNext]_pvars
 
 -----------------------------------------------------------------------------
 (* PROPERTIES over observations: n, the previous report of the task (last), the most advanced sample of the task the   *)
-(* driver has received (maxk), the report r = [task, v (percent), fin]                                                  *)
-PClauses == {"C05_ReportedProgressRange", "C05_ReportedProgressMonotone", "C05_ReportedProgressNotAboveSamples"}
-PClause(name, n, last, maxk, r) ==
+(* driver has received (maxk), whether a client delivered its first sample of the task since the previous report        *)
+(* (grew), the report r = [task, v (percent), fin]                                                                      *)
+PClauses == {"C05_ReportedProgressRange", "C05_ReportedProgressMonotone", "C05_ReportedProgressMonotoneStable", "C05_ReportedProgressNotAboveSamples"}
+PClause(name, n, last, maxk, grew, r) ==
   CASE name = "C05_ReportedProgressRange" -> r.v >= 0 /\ r.v <= 100
-    [] name = "C05_ReportedProgressMonotone" -> last >= 0 => r.v >= last          \* within one task
+    [] name = "C05_ReportedProgressMonotone" -> last >= 0 => r.v >= last          \* within one task (clients in lockstep)
+    \* clients of ANY speed: as long as the clients that have reported are the same as at the previous report of the task, the
+    \* message does not drop (every client's own progress is monotone; a mean over a fixed set of clients is, too)
+    [] name = "C05_ReportedProgressMonotoneStable" -> (last >= 0 /\ ~grew) => r.v >= last
     [] name = "C05_ReportedProgressNotAboveSamples" ->                            \* not above the most advanced client of the task
          ~r.fin => (r.v - 1) * n < 100 * maxk
-PL1(n, last, maxk, r) == {x \in PClauses : ~PClause(x, n, last, maxk, r)}
+PL1(n, last, maxk, grew, r) == {x \in PClauses : ~PClause(x, n, last, maxk, grew, r)}
+(* the clauses that hold for clients of any speed on the code as it is *)
+AnySpeedClauses == PClauses \ {"C05_ReportedProgressMonotone"}
 
-ReportProperties == [][ds'.rep # ds.rep => PL1(pcfg.n, ds.last, ds.maxk, ds'.rep) = {}]_pvars
+ReportProperties == [][ds'.rep # ds.rep => PL1(pcfg.n, ds.last, ds.maxk, ds.grew, ds'.rep) = {}]_pvars
+ReportPropertiesAnySpeed == [][ds'.rep # ds.rep => PL1(pcfg.n, ds.last, ds.maxk, ds.grew, ds'.rep) \cap AnySpeedClauses = {}]_pvars
 =============================================================================
